@@ -176,13 +176,14 @@ pub trait Write {
         ensures r is Ok ==> final(self).written() =~= old(self).written() + buf@;
 }
 /// a RELIABLE in-memory reader (as `impl Read for &[u8]` / `Cursor`): read_exact succeeds iff enough bytes remain
+/// (what it leaves behind after a failure is unspecified, as in std)
 pub trait Read {
     spec fn remaining(&self) -> Seq<u8>;
     fn read_exact(&mut self, buf: &mut [u8]) -> (r: io::Result<()>)
         ensures
             final(buf)@.len() == old(buf)@.len(),
-            old(buf)@.len() <= old(self).remaining().len() ==> (r is Ok
-                && final(buf)@ =~= old(self).remaining().subrange(0, old(buf)@.len() as int)
+            r is Ok <==> old(buf)@.len() <= old(self).remaining().len(),
+            r is Ok ==> (final(buf)@ =~= old(self).remaining().subrange(0, old(buf)@.len() as int)
                 && final(self).remaining() =~= tail_of(old(self).remaining(), old(buf)@.len() as int));
 }
 
@@ -383,12 +384,11 @@ pub proof fn lemma_rd_u128(v: u128, s: u128, res: u128, b: u8)
 //@ extra
     pub open spec fn rest_(&self) -> Seq<u8> { self.reader.remaining() }
 //@ member read_byte
-//@ body external
 //@ ret r
 //@ sig
         ensures match r {
             Ok(b) => old(self).rest_().len() > 0 && b == old(self).rest_()[0] && final(self).rest_() =~= old(self).rest_().skip(1),
-            Err(_) => old(self).rest_().len() == 0 && final(self).rest_() =~= old(self).rest_(),
+            Err(_) => old(self).rest_().len() == 0,
         }
 //@ member read_varint_u16
 //@ ret r
